@@ -100,10 +100,31 @@ def check_window(ctx, mon_state, rng, width, channels, data, uc):
     ths = [thr0, model_db + 1e-6, model_db - 1e-6, model_db + 3, model_db - 3, -200.0, -201.0, 0.0, 50.0, 300.0]
     ths += [rng.uniform(model_db - 40, model_db + 40) for _ in range(3)]
     results = []
+    cloner = None
+    if rng.random() < 0.15:
+        # the validator in use is a copy of a configured one (copy / deepcopy / a pickle round trip where that is possible)
+        import copy
+        import pickle
+
+        def _pickled(v_):
+            try:
+                return pickle.loads(pickle.dumps(v_))
+            except Exception:
+                return copy.deepcopy(v_)
+
+        cloner = rng.choice((copy.copy, copy.deepcopy, _pickled))
+        ctx.count("windows_judged_by_copies_of_a_validator")
     for thr in ths:
         if abs(model_db - thr) <= 1e-9:
             continue
-        r = verdict(AudioEnergyValidator(thr, width, channels, use_channel=uc), data)
+        val_ = AudioEnergyValidator(thr, width, channels, use_channel=uc)
+        if cloner is not None:
+            try:
+                val_ = cloner(val_)
+            except Exception as exc:
+                ctx.violation("copying-a-validator-raises:" + type(exc).__name__, {"case": case, "exception": repr(exc)[:200]})
+                return
+        r = verdict(val_, data)
         results.append((thr, r))
         ctx.count("decisions_checked")
         if r != (model_db >= thr):
